@@ -1,2 +1,274 @@
+/* unit ops of slice B: bpm.c, sequence_distance.c (pair=1), bisectingKmeans.c (upgma, label_internal,
+   create_tasks), task.c (sort_tasks) */
 #include "kvh.h"
-struct kv_op kv_ops_bpm[] = { {NULL, NULL} };
+#include <math.h>
+#include "tldevel.h"
+#include "msa_struct.h"
+#include "bpm.h"
+#include "sequence_distance.h"
+#include "task.h"
+#include "bisectingKmeans.h"
+
+int kv_label_internal(void *n, int label);
+void kv_create_tasks(void *n, struct aln_tasks *t);
+void *kv_upgma(float **dm, int *samples, int numseq);
+
+/* code list -> bytes; returns 1 on malformed input or a value outside 0..255 */
+static int parse_codes(const char *s, uint8_t **out, int *n)
+{
+        struct kv_ints l;
+        if(kv_parse_ints(s, &l)) return 1;
+        /* reject anything kv_parse_ints tolerates but the Lean side does not (empty items, signs, junk) */
+        if(strcmp(s, "-") != 0){
+                for(const char *p = s; *p; p++){
+                        if(!((*p >= '0' && *p <= '9') || *p == ',')){ kv_free_ints(&l); return 1; }
+                        if(*p == ',' && (p == s || p[1] == ',' || p[1] == 0)){ kv_free_ints(&l); return 1; }
+                }
+        }
+        uint8_t *b = malloc(l.n + 1);
+        for(int i = 0; i < l.n; i++){
+                if(l.v[i] < 0 || l.v[i] > 255){ free(b); kv_free_ints(&l); return 1; }
+                b[i] = (uint8_t)l.v[i];
+        }
+        *out = b; *n = l.n;
+        kv_free_ints(&l);
+        return 0;
+}
+
+static int any_big(const uint8_t *s, int n){ for(int i = 0; i < n; i++) if(s[i] >= 13) return 1; return 0; }
+
+/* independent plain DP (Sellers): min over substrings of t of the edit distance to p */
+static int plain_dp(const uint8_t *t, int n, const uint8_t *p, int m)
+{
+        int *prev = malloc(sizeof(int) * (m + 1)), *cur = malloc(sizeof(int) * (m + 1));
+        for(int i = 0; i <= m; i++) prev[i] = i;
+        int best = prev[m];
+        for(int j = 1; j <= n; j++){
+                cur[0] = 0;
+                for(int i = 1; i <= m; i++){
+                        int v = prev[i-1] + (p[i-1] == t[j-1] ? 0 : 1);
+                        if(prev[i] + 1 < v) v = prev[i] + 1;
+                        if(cur[i-1] + 1 < v) v = cur[i-1] + 1;
+                        cur[i] = v;
+                }
+                if(cur[m] < best) best = cur[m];
+                int *x = prev; prev = cur; cur = x;
+        }
+        free(prev); free(cur);
+        return best;
+}
+
+enum { K_BLOCK, K_BPM, K_256, K_DYN, K_SELLERS, K_BLOCK_DP, K_DP_BLOCK };
+
+static int run2(int kind, int argc, char **argv, FILE *out)
+{
+        if(argc != 2) return 1;
+        uint8_t *t, *p; int n, m;
+        if(parse_codes(argv[0], &t, &n)) return 1;
+        if(parse_codes(argv[1], &p, &m)){ free(t); return 1; }
+        int fault = 0;
+        long r = 0;
+        switch(kind){
+        case K_BLOCK: case K_BLOCK_DP:
+                if(any_big(t, n)) fault = 1; else r = bpm_block(t, p, n, m);
+                break;
+        case K_DP_BLOCK:
+                if(any_big(t, n)) fault = 1; else r = plain_dp(t, n, p, m > 1024 ? 1024 : m);
+                break;
+        case K_SELLERS:
+                r = plain_dp(t, n, p, m);
+                break;
+        case K_BPM: {
+                int mm = m > 63 ? 63 : m;
+                if(mm == 0 || any_big(p, mm) || any_big(t, n)) fault = 1; else r = bpm(t, p, n, m);
+                break; }
+        case K_256: {
+                int mm = m > 255 ? 255 : m;
+                if(any_big(p, mm) || any_big(t, n)) fault = 1;
+                else {
+#ifdef HAVE_AVX2
+                        set_broadcast_mask(); r = bpm_256(t, p, n, m);
+#else
+                        /* bpm_256 does not exist in builds without AVX2 */
+                        fputs("noavx", out); free(t); free(p); return 0;
+#endif
+                }
+                break; }
+        case K_DYN: {
+                int mm = m > 255 ? 255 : m;
+                if(mm == 0 && n > 0) fault = 1; else r = dyn_256(t, p, n, m);
+                break; }
+        }
+        if(fault) fputs("fault", out); else fprintf(out, "%ld", r);
+        free(t); free(p);
+        return 0;
+}
+static int op_bpm_block(int c, char **v, FILE *o){ return run2(K_BLOCK, c, v, o); }
+static int op_bpm(int c, char **v, FILE *o){ return run2(K_BPM, c, v, o); }
+static int op_bpm_256(int c, char **v, FILE *o){ return run2(K_256, c, v, o); }
+static int op_dyn_256(int c, char **v, FILE *o){ return run2(K_DYN, c, v, o); }
+static int op_sellers(int c, char **v, FILE *o){ return run2(K_SELLERS, c, v, o); }
+static int op_bpm_block_dp(int c, char **v, FILE *o){ return run2(K_BLOCK_DP, c, v, o); }
+static int op_dp_bpm_block(int c, char **v, FILE *o){ return run2(K_DP_BLOCK, c, v, o); }
+
+int kv_bpm_256_shift_ub(int m);
+/* bpm_256_ub <t> <p> : does bpm_256 execute the undefined `1 << 31` (bpm.c:201)? */
+static int op_bpm_256_ub(int argc, char **argv, FILE *out)
+{
+        if(argc != 2) return 1;
+        uint8_t *t, *p; int n, m;
+        if(parse_codes(argv[0], &t, &n)) return 1;
+        if(parse_codes(argv[1], &p, &m)){ free(t); return 1; }
+        fputs(kv_bpm_256_shift_ub(m) ? "ub" : "ok", out);
+        free(t); free(p);
+        return 0;
+}
+
+static void print_f32(FILE *o, float f){ uint32_t w; memcpy(&w, &f, 4); fprintf(o, "%08x", w); }
+
+/* calc_distance <a> <b> */
+static int op_calc_distance(int argc, char **argv, FILE *out)
+{
+        if(argc != 2) return 1;
+        uint8_t *a, *b; int la, lb;
+        if(parse_codes(argv[0], &a, &la)) return 1;
+        if(parse_codes(argv[1], &b, &lb)){ free(a); return 1; }
+        /* the text is the longer one (b on ties) */
+        int bad = (la > lb) ? any_big(a, la) : any_big(b, lb);
+        if(bad) fputs("fault", out); else print_f32(out, calc_distance(a, b, la, lb));
+        free(a); free(b);
+        return 0;
+}
+
+/* builds an msa carrying only what the tree code reads */
+static struct msa *mk_msa(int n, char **argv)
+{
+        struct msa *msa = calloc(1, sizeof(struct msa));
+        msa->numseq = n; msa->num_profiles = 2*n - 1; msa->quiet = 1;
+        msa->sequences = calloc(n, sizeof(struct msa_seq*));
+        for(int i = 0; i < n; i++){
+                msa->sequences[i] = calloc(1, sizeof(struct msa_seq));
+                if(parse_codes(argv[i], &msa->sequences[i]->s, &msa->sequences[i]->len)){
+                        for(int j = 0; j <= i; j++){ free(msa->sequences[j]->s); free(msa->sequences[j]); }
+                        free(msa->sequences); free(msa);
+                        return NULL;
+                }
+        }
+        return msa;
+}
+static void rm_msa(struct msa *msa)
+{
+        for(int i = 0; i < msa->numseq; i++){ free(msa->sequences[i]->s); free(msa->sequences[i]); }
+        free(msa->sequences); free(msa);
+}
+static int msa_big(struct msa *msa)
+{
+        for(int i = 0; i < msa->numseq; i++) if(any_big(msa->sequences[i]->s, msa->sequences[i]->len)) return 1;
+        return 0;
+}
+
+/* dist_matrix <seq>... : d_estimation(msa, samples, n, 1) */
+static int op_dist_matrix(int argc, char **argv, FILE *out)
+{
+        if(argc < 1 || argc > 200) return 1;
+        struct msa *msa = mk_msa(argc, argv);
+        if(!msa) return 1;
+        int n = argc;
+        if(msa_big(msa)){ fputs("fault", out); rm_msa(msa); return 0; }
+        int *samples = malloc(sizeof(int) * n);
+        for(int i = 0; i < n; i++) samples[i] = i;
+        float **dm = d_estimation(msa, samples, n, 1);
+        for(int i = 0; i < n; i++) for(int j = 0; j < n; j++){ if(i || j) fputc(',', out); print_f32(out, dm[i][j]); }
+        gfree(dm);
+        free(samples); rm_msa(msa);
+        return 0;
+}
+
+static void print_tasks(FILE *out, struct aln_tasks *t)
+{
+        if(t->n_tasks == 0){ fputc('-', out); return; }
+        for(int i = 0; i < t->n_tasks; i++)
+                fprintf(out, i ? " %d,%d,%d" : "%d,%d,%d", t->list[i]->a, t->list[i]->b, t->list[i]->c);
+}
+
+/* upgma <n> <n*n words> : upgma, label_internal, create_tasks, sort_tasks */
+static int op_upgma(int argc, char **argv, FILE *out)
+{
+        if(argc != 2) return 1;
+        char *e;
+        long n = strtol(argv[0], &e, 10);
+        if(e == argv[0] || *e || n < 1 || n > 200) return 1;
+        for(const char *p = argv[0]; *p; p++) if(*p < '0' || *p > '9') return 1;
+        size_t len = strlen(argv[1]);
+        if(len != (size_t)(n*n*9 - 1)) return 1;
+        float **dm = malloc(sizeof(float*) * n);
+        for(int i = 0; i < n; i++) dm[i] = malloc(sizeof(float) * n);
+        int bad = 0;
+        for(long k = 0; k < n*n && !bad; k++){
+                const char *w = argv[1] + 9*k;
+                uint32_t x = 0;
+                for(int d = 0; d < 8; d++){
+                        int c = w[d], v;
+                        if(c >= '0' && c <= '9') v = c - '0'; else if(c >= 'a' && c <= 'f') v = c - 'a' + 10;
+                        else if(c >= 'A' && c <= 'F') v = c - 'A' + 10; else { bad = 1; break; }
+                        x = x * 16 + v;
+                }
+                if(k < n*n - 1 && w[8] != ',') bad = 1;
+                if((x & 0x7fffffffu) > 0x7149f2cau) bad = 1;
+                float f; memcpy(&f, &x, 4);
+                dm[k / n][k % n] = f;
+        }
+        if(!bad){
+                int *samples = malloc(sizeof(int) * n);
+                for(int i = 0; i < n; i++) samples[i] = i;
+                struct aln_tasks *t = NULL;
+                alloc_tasks(&t, n);
+                void *root = kv_upgma(dm, samples, n);
+                kv_label_internal(root, n);
+                kv_create_tasks(root, t);
+                free(root);
+                if(t->n_tasks) sort_tasks(t, TASK_ORDER_TREE);
+                print_tasks(out, t);
+                free_tasks(t);
+                free(samples);
+        }
+        for(int i = 0; i < n; i++) free(dm[i]);
+        free(dm);
+        return bad;
+}
+
+/* tree <seq>... : build_tree_kmeans + sort_tasks for fewer than 100 sequences */
+static int op_tree(int argc, char **argv, FILE *out)
+{
+        if(argc < 1 || argc > 200) return 1;
+        struct msa *msa = mk_msa(argc, argv);
+        if(!msa) return 1;
+        if(argc >= 100){ rm_msa(msa); return 1; }
+        if(msa_big(msa)){ fputs("fault", out); rm_msa(msa); return 0; }
+        struct aln_tasks *t = NULL;
+        alloc_tasks(&t, msa->numseq);
+        build_tree_kmeans(msa, &t);
+        if(t->n_tasks) sort_tasks(t, TASK_ORDER_TREE);
+        print_tasks(out, t);
+        free_tasks(t);
+        rm_msa(msa);
+        return 0;
+}
+
+struct kv_op kv_ops_bpm[] = {
+        {"bpm_block", op_bpm_block},
+        {"bpm", op_bpm},
+        {"bpm_256", op_bpm_256},
+        {"bpm_256_ub", op_bpm_256_ub},
+        {"dyn_256", op_dyn_256},
+        {"sellers", op_sellers},
+        {"bpm_block_dp", op_bpm_block_dp},
+        {"dp_bpm_block", op_dp_bpm_block},
+        {"calc_distance", op_calc_distance},
+        {"dist_matrix", op_dist_matrix},
+        {"upgma", op_upgma},
+        {"upgma_exact", op_upgma},
+        {"tree", op_tree},
+        {"tree_exact", op_tree},   /* Lean side: exact distances + exact UPGMA; emitted only for margin-safe inputs */
+        {NULL, NULL}
+};
